@@ -122,6 +122,25 @@ partial def parseParam : Sexp → Param
   | _ => .mk "?" none none .unsupported
 end
 
+mutual
+/-- does the description use only constructs the model covers? -/
+def Dop.supported : Dop → Bool
+  | .simple _ _ _ => true
+  | .struct _ ps => paramsSupported ps
+  | .staticField _ _ item => item.supported
+  | .dynLenField _ _ _ cd item => cd.supported && item.supported
+  | .endMarkerField _ td item => td.supported && item.supported
+  | .eopField _ _ item => item.supported
+  | .unsupported => false
+def PKind.supported : PKind → Bool
+  | .physConst d _ | .value d _ | .lengthKey d => d.supported
+  | .unsupported => false
+  | _ => true
+def paramsSupported : List Param → Bool
+  | [] => true
+  | .mk _ _ _ k :: ps => k.supported && paramsSupported ps
+end
+
 /-- `(composite (name N) (kind K) [(bytesize N)] (params …))` → (byte size, parameters) -/
 def parseComposite : Sexp → Option (Option Nat × List Param)
   | .list (.atom "composite" :: fs) => do
